@@ -102,7 +102,7 @@ func runWatchdog(id int, sc *wdScript) wdLine {
 		switch sc.Kind {
 		case "all", "dup":
 			return true, 2001
-		case "stop_after":
+		case "stop_after", "multi_stop":
 			return r <= sc.N, 2001
 		case "only_retx":
 			return c == sc.J, 2001
@@ -136,12 +136,19 @@ func runWatchdog(id int, sc *wdScript) wdLine {
 					lg.add(cnEvent{Ev: "dwr.rx", K: "fail"})
 				}
 				if yes {
+					mult := 1 // success answers per DWR
+					switch sc.Kind {
+					case "dup":
+						mult = 2
+					case "multi_stop":
+						mult = sc.J
+					}
 					dwa := buildDWA(m.HbH, m.E2E, rc)
 					if sc.Sync {
 						// the answer is read and dispatched before the transport write returns
 						mc.Feed(dwa)
 						mc.WaitReaderBlocked(2 * time.Second)
-						if sc.Kind == "dup" {
+						for k := 1; k < mult; k++ {
 							lg.add(cnEvent{Ev: "dwa.dup"})
 							mc.Feed(dwa)
 							mc.WaitReaderBlocked(2 * time.Second)
@@ -152,7 +159,7 @@ func runWatchdog(id int, sc *wdScript) wdLine {
 								time.Sleep(time.Duration(sc.Delay) * time.Millisecond)
 							}
 							mc.Feed(dwa)
-							if sc.Kind == "dup" {
+							for k := 1; k < mult; k++ {
 								mc.WaitReaderBlocked(2 * time.Second)
 								lg.add(cnEvent{Ev: "dwa.dup"})
 								mc.Feed(dwa)
@@ -174,7 +181,7 @@ func runWatchdog(id int, sc *wdScript) wdLine {
 	_ = t0
 	// observe: until the connection is closed, or the required number of rounds was seen
 	// (plus the time for the last round to be acknowledged)
-	closes := sc.Kind == "stop_after" || sc.Kind == "fail" || sc.Kind == "none"
+	closes := sc.Kind == "stop_after" || sc.Kind == "multi_stop" || sc.Kind == "fail" || sc.Kind == "none"
 	limit := time.Duration((sc.Rounds+2)*(sc.WI+(sc.Budget+2)*sc.RI))*time.Millisecond + 3*time.Second
 	deadline := time.Now().Add(limit)
 	for time.Now().Before(deadline) {
@@ -261,6 +268,7 @@ type dwaLine struct {
 	WantOR   string `json:"want_or"`
 	Closed   bool   `json:"closed"`
 	OSID     bool   `json:"osid"`
+	ReqOH    string `json:"req_oh"` // the Origin-Host the DWR carried (the CER's, another spelling of it, another name)
 }
 
 func runDWRs(out *Out, id *int) {
@@ -271,12 +279,15 @@ func runDWRs(out *Out, id *int) {
 		s.Conn.WaitOut(20, 3*time.Second)
 		s.Conn.WaitReaderBlocked(2 * time.Second)
 		for _, h := range ids {
-			for _, e := range ids {
+			for k, e := range ids {
 				off := len(s.Conn.Out())
-				s.Conn.Feed(buildDWR(h, e, osid, peerHost, peerRealm))
+				// the DWR names its sender as the CER did, in another spelling (names are
+				// case-insensitive), or differently: it is a well-formed DWR all the same
+				reqOH := []string{peerHost, strings.ToUpper(peerHost[:1]) + peerHost[1:], peerHost, "other." + peerHost, peerHost}[k]
+				s.Conn.Feed(buildDWR(h, e, osid, reqOH, peerRealm))
 				s.Conn.WaitReaderBlocked(3 * time.Second)
 				*id++
-				l := dwaLine{Ev: "dwa", ID: *id, ReqHbH: abs.B4(h), ReqE2E: abs.B4(e), HbH: []int{}, E2E: []int{}, WantOH: string(srvSettings.OriginHost), WantOR: string(srvSettings.OriginRealm), OSID: osid}
+				l := dwaLine{Ev: "dwa", ID: *id, ReqHbH: abs.B4(h), ReqE2E: abs.B4(e), HbH: []int{}, E2E: []int{}, WantOH: string(srvSettings.OriginHost), WantOR: string(srvSettings.OriginRealm), OSID: osid, ReqOH: reqOH}
 				msgs, _ := splitMsgs(s.Conn.Out()[off:])
 				if len(msgs) == 1 && msgs[0].Cmd == 280 && msgs[0].Flags&0x80 == 0 {
 					m := msgs[0]
